@@ -133,9 +133,55 @@ def r4(ctx):
     ctx.check(P, rule, "no valid slot: fresh log with a key pair, otherwise EmptyStorage", ok_none, "region (None, None): fresh(key_pair) or Err(EmptyStorage)", "(None, None) region does not create a fresh log / report empty storage", key="C07|C07.R4|none")
 
 
-RULES = [r1, r2, r3, r4]
+def r5(ctx):
+    """the header bits remembered after open are consistent with the slot that was chosen:
+    get_current_header_bit() (= bits differ) and the slot rotation are derived from them"""
+    rule = "C07.R5"
+    fo = ctx.fn(OPLOG_OPEN)
+    if not need(ctx, P, rule, OPLOG_OPEN, fo):
+        return
+    hdr, _ = _header_sites(fo)
+    if len(hdr) != 2:
+        ctx.missing(P, rule, "Oplog::open: two header-slot validate_leader sites", "found %d" % len(hdr))
+        return
+    def hb_of(t):
+        """(slot index, negated) if t is [!]validate_leader(slot).header_bit"""
+        neg = False
+        t = strip(t)
+        while t[0] == "un" and t[1] == "Not":
+            t = strip(t[2])
+            neg = not neg
+        if t[0] == "field" and t[2] == "header_bit":
+            s = term_has_call(t, VALIDATE_LEADER)
+            if s in hdr:
+                return (hdr.index(s), neg)
+        return None
+    shapes = []
+    for b in fo.live():
+        for si, st in enumerate(b.stmts):
+            if st["k"] == "assign" and st["rv"]["k"] == "agg" and st["rv"].get("name") == OPLOG and "header_bits" in st["rv"]["fields"]:
+                t = fo.origin_operand(st["rv"]["ops"][st["rv"]["fields"].index("header_bits")], b.i, si)
+                for r in roots(t):
+                    if is_agg(r) and r[1] == "array" and len(r[3]) == 2:
+                        shapes.append((loc(fo, b.i, si), hb_of(r[3][0][1]), hb_of(r[3][1][1])))
+                    elif r[0] == "const":
+                        shapes.append((loc(fo, b.i, si), "const", r[1]))
+    got = sorted(set((a, b) for _, a, b in shapes if a != "const"), key=str)
+    want = sorted({((0, False), (1, False)), ((0, False), (0, False)), ((1, True), (1, False))}, key=str)
+    ctx.check(P, rule, "remembered header bits match the slot whose header is used", got == want,
+              "both valid: [h1, h2]; only slot 1: [h1, h1] (equal => slot 1 current); only slot 2: [!h2, h2] (different => slot 2 current)",
+              "Oplog::open remembers header bits %s (slot, negated) — expected [h1,h2] / [h1,h1] / [!h2,h2]: with other bits get_current_header_bit() and the slot rotation disagree with the header that was actually loaded, so the entries written under it are skipped and the next flush overwrites the only valid slot" % got,
+              [s for s, _, _ in shapes], key="C07|C07.R5|Oplog::open|header bits vs chosen slot")
+    fc = ctx.fn(CUR_HDR_BIT)
+    if need(ctx, P, rule, CUR_HDR_BIT, fc):
+        r = [t for _, _, t in ret_assigns(fc)]
+        good = r and r[0][0] == "bin" and r[0][1] == "Ne" and "header_bits" in term_str(r[0])
+        ctx.check(P, rule, "current header bit = bits differ", good, "header_bits[0] != header_bits[1]", "get_current_header_bit returns %s" % (term_str(r[0]) if r else None))
+
+
+RULES = [r1, r2, r3, r4, r5]
 EXPLANATION = ("C07 (a torn final write is tolerated): decides that validate_leader reports a leader shorter than 8 bytes, a zero length and an incomplete payload as end-of-log before decoding or slicing "
                "(R1), that a frame is accepted only on the equal-checksum edge (R2), that a checksum failure of a header slot or of a log entry is not propagated as an error out of Oplog::open (R3, conditional "
-               "on validate_leader having an error return), and that the four combinations of slot validity each lead to the intended header choice / fresh log / EmptyStorage (R4).")
+               "on validate_leader having an error return), and that the four combinations of slot validity each lead to the intended header choice / fresh log / EmptyStorage (R4), and that the header bits remembered for each combination agree with the slot whose header is used (R5).")
 NOT_DECIDED = "which state a torn write recovers to (C02's undecided part); sector semantics of the disk; torn writes to the tree / bitfield / data stores."
 ASSUMPTIONS = ["a torn write leaves a byte prefix of the new data over the old data"]
